@@ -90,18 +90,26 @@ Theorem C36_sqlite_pid_unset_not_read : forall q fk fresh pp,
 Proof. exact pool_connect_unset_pid_not_read. Qed.
 Print Assumptions C36_sqlite_pid_unset_not_read.
 
-(* OraPool.connect as translated: after a fork a new cx_Oracle.SessionPool is created by the child and the connection comes from it *)
-Theorem C36_oracle_connect : forall q cx0 pid0 fk fresh,
+(* OraPool.connect as translated, with oracles for cx_Oracle.SessionPool(...) and cx_pool.acquire() raising: in every ending the
+   recorded pid is the creator of the pool it belongs to; a connection that is handed out comes from a pool created by the caller *)
+Theorem C36_oracle_connect : forall pool_ok acquire_ok q cx0 pid0 fk fresh,
   creator cx0 = pid0 -> creator fresh = q ->
-  let '(c, cx', pid', fk', isnew) := ora_connect q cx0 pid0 fk fresh in
-  creator c = q /\ creator cx' = pid' /\ pid' = q.
+  let '(c, cx', pid', fk', isnew) := ora_connect pool_ok acquire_ok q cx0 pid0 fk fresh in
+  creator cx' = pid' /\ (forall k, c = Some k -> creator k = q /\ pid' = q).
 Proof. exact ora_connect_own. Qed.
 Print Assumptions C36_oracle_connect.
 
 Theorem C36_oracle_after_fork : forall q p cx0 fk fresh,
-  p <> q -> ora_connect q cx0 p fk fresh = (acquire fresh, fresh, q, fk ++ [(cx0, p)], true).
+  p <> q -> ora_connect true true q cx0 p fk fresh = (Some (acquire fresh), fresh, q, fk ++ [(cx0, p)], true).
 Proof. exact ora_connect_after_fork. Qed.
 Print Assumptions C36_oracle_after_fork.
+
+Theorem C36_oracle_after_fork_pool_creation_fails : forall q p cx0 fk fresh acquire_ok,
+  p <> q ->
+  ora_connect false acquire_ok q cx0 p fk fresh = (None, cx0, p, fk ++ [(cx0, p)], false)
+  /\ ora_connect true true q cx0 p (fk ++ [(cx0, p)]) fresh = (Some (acquire fresh), fresh, q, (fk ++ [(cx0, p)]) ++ [(cx0, p)], true).
+Proof. exact ora_connect_after_fork_pool_fails_then_retry. Qed.
+Print Assumptions C36_oracle_after_fork_pool_creation_fails.
 
 (* hypotheses satisfiable, model not trivial: parent runs a session, forks with the connection pooled; child runs two sessions *)
 Example C36_nonvacuous :
